@@ -252,7 +252,7 @@ impl<'a, 'b, 'resources, PathLocatorImpl: PathLocator>
                 )),
                 _ => Err(DarkluaError::invalid_resource_extension(path)),
             },
-            None => unreachable!("extension should be defined"),
+            None => Err(DarkluaError::invalid_resource_extension(path)),
         }
     }
 }
